@@ -440,6 +440,10 @@ func (env *rEnv) call(n *rNode) Value {
 					return sym(App(SBytes, "j.marshal", inner.Data.(Term)))
 				}
 			}
+			// any other JSON-marshalable value
+			jm := App(SBytes, "j.marshal", e.jsonOfValue(env.post, v))
+			env.post.fact(Not(Eq(jm, nullB)))
+			return sym(jm)
 		}
 		return env.fail("rawof: unsupported value shape")
 	case "concat":
@@ -595,7 +599,12 @@ func (env *rEnv) call(n *rNode) Value {
 			if env.iterKey != "" {
 				from = env.post.loopMark[env.iterKey]
 			} else {
-				from = len(env.post.trace)
+				// in a function postcondition: the iteration of the innermost loop the path was in (whole path if none)
+				for _, m := range env.post.loopMark {
+					if m > from {
+						from = m
+					}
+				}
 			}
 			c := 0
 			for i := from; i < len(env.post.trace); i++ {
